@@ -140,8 +140,13 @@ def correspondence(ctx: Ctx, cases: list, world: str) -> None:
         ctx.dist("outcome", "invalid-source-list" if "E" in rp else ("duplicate-module" if rp.get("D", "-") != "-" else "sources"))
         if real != mcmp:
             ndiff += 1
-            if len(first_diffs) < 3:
-                first_diffs.append((case, real, mline))
+            # keep a few distinct trees for the search, those whose find_module observations differ first
+            fdiff = layout.parse(real).get("F") != layout.parse(mcmp).get("F")
+            if not any(d[0].entries == case.entries for d in first_diffs):
+                if fdiff and sum(1 for d in first_diffs if d[3]) < 4:
+                    first_diffs.insert(0, (case, real, mline, True))
+                elif len(first_diffs) < 4:
+                    first_diffs.append((case, real, mline, False))
         # the property's own oracle on the real observations (independent of the model)
         fails = oracle.roundtrip_failures(case, world, rp)
         n_prop_checked += len(rp.get("S", []))
@@ -191,10 +196,11 @@ def correspondence(ctx: Ctx, cases: list, world: str) -> None:
                        replay_detail(case, real, mline, world))
     # a correspondence difference: the oracle above has been evaluated on every case; if it found nothing …
     if ndiff and not ctx.violations:
-        for case, real, mline in first_diffs:
-            search_near(ctx, case, world)
+        for case, real, mline, _ in first_diffs[:5]:
+            if not ctx.violations:
+                search_near(ctx, case, world)
         if not ctx.violations:
-            case, real, mline = first_diffs[0]
+            case, real, mline, _ = first_diffs[0]
             ctx.violation("correspondence broken: the real create_source_list / find_module observations differ from "
                           "Model/Layout.lean on %d of %d cases; the round-trip oracle and the CLI three-way check found "
                           "no failing input on them" % (ndiff, len(cases)),
@@ -203,35 +209,52 @@ def correspondence(ctx: Ctx, cases: list, world: str) -> None:
 
 
 def search_near(ctx: Ctx, case: Case, world: str) -> None:
-    """Search around a differing case: the same tree under every option combination and argument style (round-trip
-    oracle), and the CLI three-way check on the tree when it has a package shape."""
+    """Search around a differing case: the same tree with every file listed (both orders) under a systematic set of
+    configurations derived from the tree itself — mypy_path = every ordered choice of <= 2 top-level directories,
+    cwd = the world / each top-level directory / an outside directory, the three option modes — evaluated with
+    the round-trip oracle; then the CLI three-way check on the tree when it has a plain package shape."""
+    import itertools
     rng = ctx.rng
     base_entries = [e for e in case.entries]
-    for ns, epb, cwd, mp in gen.CONFIGS:
-        files = {p for p, k in base_entries if k == "f"}
-        if any(x in files for x in [cwd] + mp):
-            continue
-        ents = list(base_entries)
-        if cwd and not any(p == cwd or p.startswith(cwd + "/") for p, _ in ents):
-            ents.append((cwd, "d"))
-        for style, args in gen.arg_styles(rng, base_entries, 8):
-            c2 = Case(entries=ents, args=list(args), cwd=cwd, mypy_path=list(mp), ns=ns, epb=epb, kind="near:" + style)
-            try:
-                real = run_case(c2, world)
-            except Exception:
-                continue
-            rp = layout.parse(real)
-            for src, found, cells in oracle.roundtrip_failures(c2, world, rp):
-                if not cells:
-                    ctx.report({"class": "roundtrip-fails", "ns": ns, "epb": epb},
-                               "%s is given module '%s' but find_module returns %s" % (src[0].replace(world, "<W>"), src[1], found.replace(world, "<W>")),
-                               replay_detail(c2, real, "", world))
-                    return
-    # CLI three-way on the same files placed as a package
     files = sorted(p for p, k in base_entries if k == "f" and p.endswith((".py", ".pyi")))
+    plain_files = {p for p, k in base_entries if k == "f"}
+    tops = []
+    for p, _ in base_entries:
+        parts = p.split("/")
+        for depth in (1, 2):
+            if len(parts) > depth:
+                t = "/".join(parts[:depth])
+                if t not in tops and t not in plain_files:
+                    tops.append(t)
+    tops = tops[:5]
+    mps = [[]] + [[t] for t in tops] + [list(x) for x in itertools.permutations(tops, 2)]
+    budget = 900
+    for mp in mps:
+        for cwd in [""] + tops + ["o"]:
+            for ns, epb in ((True, False), (False, False), (True, True)):
+                for args in (files, files[::-1]):
+                    if budget <= 0 or not args:
+                        break
+                    budget -= 1
+                    ents = list(base_entries)
+                    if cwd and not any(p == cwd or p.startswith(cwd + "/") for p, _ in ents):
+                        ents.append((cwd, "d"))
+                    c2 = Case(entries=ents, args=list(args), cwd=cwd, mypy_path=list(mp), ns=ns, epb=epb, kind="near:files")
+                    real = run_case(c2, world)
+                    if real.startswith("X "):
+                        continue
+                    rp = layout.parse(real)
+                    for src, found, cells in oracle.roundtrip_failures(c2, world, rp):
+                        if not cells:
+                            ctx.report({"class": "roundtrip-fails", "ns": ns, "epb": epb},
+                                       "%s is given module '%s' but find_module returns %s (no duplicate module, no excluded cell)"
+                                       % (src[0].replace(world, "<W>"), src[1], found.replace(world, "<W>")),
+                                       replay_detail(c2, real, "", world))
+                            return
+    # CLI three-way on the same files placed as a package
     plain = all(c.isidentifier() for f in files for c in f.rsplit(".", 1)[0].split("/"))
     if files and plain:
-        pk = ["pk/" + "/".join(f.split("/")[1:]) for f in files if "/" in f]
+        pk = sorted(set("pk/" + "/".join(f.split("/")[1:]) for f in files if "/" in f))
         if pk:
             three_way_tree(ctx, get_runner(ctx), pk, rng.choice(["A", "B", "C"]), "near-diff")
 
